@@ -570,6 +570,19 @@ impl KeyIdMethod {
 	}
 }
 
+/// Checks that `dt` can be encoded as a `Time`: GeneralizedTime (and therefore X.509) only
+/// covers the years 0 to 9999 in UTC, while `OffsetDateTime` also admits negative years, and
+/// a UTC offset can move a local year 9999 into year 10000.
+fn check_time_encodable(dt: OffsetDateTime) -> Result<(), Error> {
+	// 0000-01-01T00:00:00Z ..= 9999-12-31T23:59:59Z
+	const ENCODABLE: std::ops::RangeInclusive<i64> = -62_167_219_200..=253_402_300_799;
+	if ENCODABLE.contains(&dt.unix_timestamp()) {
+		Ok(())
+	} else {
+		Err(Error::Time)
+	}
+}
+
 fn dt_strip_nanos(dt: OffsetDateTime) -> OffsetDateTime {
 	// Set nanoseconds to zero
 	// This is needed because the GeneralizedTime serializer would otherwise
